@@ -269,7 +269,7 @@ Definition spec_unflatten (axis : Z) (t : ty) (vs : list value) (c : counts_arg)
       else unspecified
   | CArr tc cs =>
       if ax <? 0 then unspecified else
-      if (1 <=? ax) && level_is_string (Z.to_nat (ax - 1)) t then unspecified else
+      if (1 <=? ax) && (level_is_string (Z.to_nat (ax - 1)) t || has_rec t) then unspecified else
       do cl <- counts_of tc cs;
       unflatten_vals ax vs cl
   end.
@@ -411,11 +411,15 @@ Definition cart_entry (fields : option (list name)) (nested : list Z) (ls : list
   Ok (match r with Some l => VList l | None => VNone end).
 
 Inductive nested_arg := NNone | NAll | NList (l : list Z).
-Definition nested_list (k : Z) (n : nested_arg) : res (list Z) :=
+(* a list of arrays: slot numbers in [0, k-1); a dict of arrays: any of its keys (here: positions in [0, k)), the
+   last one has no effect *)
+Definition nested_list (k : Z) (isdict : bool) (n : nested_arg) : res (list Z) :=
   match n with
   | NNone => Ok []
   | NAll => Ok (iota (k - 1))
-  | NList l => if forallb (fun x => (0 <=? x) && (x <? k - 1)) l then Ok l else Err EValue
+  | NList l =>
+      let top := if isdict then k else k - 1 in
+      if forallb (fun x => (0 <=? x) && (x <? top)) l then Ok l else Err EValue
   end.
 
 Definition list_lengths_differ (ls : list (list value)) : bool :=
@@ -449,8 +453,9 @@ Fixpoint cart_v (fields : option (list name)) (nested : list Z) (n : nat) (ps : 
   | O =>
       let ts := map (fun p => strip_opt1 (fst p)) ps in
       if existsb (fun t => is_rec t || is_opt t || is_union t) ts then unspecified else
+      (* the axis is exactly the depth of some array: the code wraps its leaves without complaint *)
+      if negb (forallb is_listty ts) then unspecified else
       if existsb (fun t => match t with TList _ (Some _) _ => true | _ => false end) ts then Err EValue else
-      if negb (forallb is_listty ts) then (if existsb is_listty ts then unspecified else Err EValue) else
       do ls <- mapM axis_list ps;
       cart_entry fields nested ls
   | S k =>
@@ -490,10 +495,13 @@ Fixpoint cart_ty (n : nat) (ts : list ty) {struct n} : res unit :=
   if existsb is_union ts then unspecified else
   let ts := map strip_opt1 ts in
   if existsb (fun t => is_rec t || is_opt t || is_union t) ts then unspecified else
-  if negb (forallb is_listty ts) then (if existsb is_listty ts then unspecified else Err EValue) else
   match n with
-  | O => if existsb (fun t => match t with TList _ (Some _) _ => true | _ => false end) ts then Err EValue else Ok tt
-  | S k => do _ <- reg_sizes_ok ts; cart_ty k (map elem_ty ts)
+  | O =>
+      if negb (forallb is_listty ts) then unspecified else
+      if existsb (fun t => match t with TList _ (Some _) _ => true | _ => false end) ts then Err EValue else Ok tt
+  | S k =>
+      if negb (forallb is_listty ts) then (if existsb is_listty ts then unspecified else Err EValue) else
+      do _ <- reg_sizes_ok ts; cart_ty k (map elem_ty ts)
   end.
 
 Definition same_axis (t0 : ty) (axis : Z) (ts : list ty) : res Z :=
@@ -509,7 +517,7 @@ Definition spec_cartesian (axis : Z) (nested : nested_arg) (fields : option (lis
   | [] => unspecified
   | (t0, _) :: _ =>
       do ax <- same_axis t0 axis (map fst arrs);
-      do nl <- nested_list (zlen arrs) nested;
+      do nl <- nested_list (zlen arrs) (match fields with Some _ => true | None => false end) nested;
       if negb (fields_ok (zlen arrs) fields) then Err EValue else
       if ax =? 0 then cart_entry fields nl (map (fun a : arr => Some (snd a)) arrs)
       else
@@ -809,7 +817,16 @@ Fixpoint wf_ty (where_ : option name) (tb tw : ty) {struct tb} : ty :=
   | TOpt tb' => TOpt (wf_ty where_ tb' (strip_opt1 tw))
   | TList sz None tb' =>
       let tw1 := strip_opt1 tw in
-      let inner := TList sz None (wf_ty where_ tb' (if is_listty tw1 then elem_ty tw1 else tw1)) in
+      (* a regular dimension stays regular only next to a regular (or shallower) partner of the same size *)
+      let sz' := match tw1 with
+                 | TList szw _ _ =>
+                     match sz, szw with
+                     | Some a, Some b => if a =? b then Some a else None
+                     | _, _ => None
+                     end
+                 | _ => sz
+                 end in
+      let inner := TList sz' None (wf_ty where_ tb' (if is_listty tw1 then elem_ty tw1 else tw1)) in
       if is_opt tw then TOpt inner else inner
   | _ => tb
   end.
